@@ -20,6 +20,7 @@
   {"vname": "strint",  "defines": ["-DV_FMT=\"<%s> %d\"", "-DV_ARGS=s0,i0", "-DV_N=2", "-DV_F0=\"%s\"", "-DV_K0=K_STR", "-DV_S0=s0", "-DV_F1=\"%d\"", "-DV_K1=K_INT", "-DV_V1=i0"]},
   {"vname": "precstr", "defines": ["-DV_FMT=\"%.1s|%s\"", "-DV_ARGS=s0,s1", "-DV_N=2", "-DV_F0=\"%.1s\"", "-DV_K0=K_STR", "-DV_S0=s0", "-DV_P0=1", "-DV_F1=\"%s\"", "-DV_K1=K_STR", "-DV_S1=s1"]},
   {"vname": "dbl",     "defines": ["-DV_FMT=\"%f %8.3e\"", "-DV_ARGS=d0,d1", "-DV_N=2", "-DV_F0=\"%f\"", "-DV_K0=K_DOUBLE", "-DV_D0=d0", "-DV_F1=\"%8.3e\"", "-DV_K1=K_DOUBLE", "-DV_D1=d1"]},
+  {"vname": "ldbl_int","defines": ["-DV_FMT=\"%lf|%d|%x\"", "-DV_ARGS=d0,i0,i1", "-DV_N=3", "-DV_F0=\"%lf\"", "-DV_K0=K_DOUBLE", "-DV_D0=d0", "-DV_F1=\"%d\"", "-DV_K1=K_INT", "-DV_V1=i0", "-DV_F2=\"%x\"", "-DV_K2=K_INT", "-DV_V2=i1"]},
   {"vname": "star",    "defines": ["-DV_FMT=\"%*d|\"", "-DV_ARGS=7,i0", "-DV_N=1", "-DV_F0=\"%7d\"", "-DV_K0=K_INT", "-DV_V0=i0"]}]}
 */
 /* Encode with the real qb_vsnprintf_serialize, decode with the real qb_vsnprintf_deserialize, per format template,
